@@ -84,7 +84,7 @@ func (f mField) inRange(v uint64) bool {
 	case mfFreq:
 		return verifAnd(v%100 == 0, v/100 < 1<<24)
 	case mfFreqNC:
-		lo := verifAnd(v < 2400000000, verifAnd(v%100 == 0, v/100 < 1<<24))
+		lo := verifAnd(v%100 == 0, v/100 < 12000000) // wire values >= 12000000 denote 2.4 GHz frequencies
 		hi := verifAnd(v >= 2400000000, verifAnd(v%200 == 0, v/200 < 1<<24))
 		return verifOr(lo, hi)
 	case mfMargin:
@@ -149,8 +149,15 @@ func (f mField) draw(full bool) uint64 {
 			// v = 100 * x, x < 2^24 (avoids a division in the assumption)
 			v = (v & 0xffffff) * 100
 		case mfFreqNC:
+			// two cases (explored as two paths): below 2.4 GHz in 100 Hz steps, from 2.4 GHz in 200 Hz steps
 			x := v & 0xffffff
-			v = verifIteU64(x >= 12000000, x*200, x*100)
+			if verifNondetBool("band2g4") {
+				verifAssume(x >= 12000000)
+				v = x * 200
+			} else {
+				verifAssume(x < 12000000)
+				v = x * 100
+			}
 		default:
 			verifAssume(f.inRange(v))
 		}
